@@ -42,7 +42,7 @@ sys.path.insert(0, VERIF)
 import registry  # noqa: E402
 
 KANI_FLAGS = [
-    "-Z", "stubbing", "-Z", "unstable-options",
+    "-Z", "stubbing", "-Z", "unstable-options", "-Z", "restrict-vtable",
     "--no-memory-safety-checks", "--no-assertion-reach-checks",
 ]
 
@@ -121,11 +121,95 @@ def make_scratch(slot, prop):
             raise BuildProblem("host file %s for harness module %s no longer exists" % (host, mod))
         with open(hostp, "a") as f:
             f.write('\n#[cfg(kani)]\n#[path = "%s"]\nmod __verif_%s;\n' % (dst, mod))
+    # call-site substitutions (environment models that cannot be expressed as kani::stub)
+    for rel, old, new in SUBSTITUTIONS:
+        fp = os.path.join(slot.scratch, rel)
+        if os.path.isfile(fp):
+            txt = open(fp).read()
+            if old in txt:
+                open(fp, "w").write(txt.replace(old, new))
+    # logging -> no-op macros (every file of the crate, not the harness modules)
+    for root, _dirs, files in os.walk(os.path.join(slot.scratch, "src")):
+        if root.endswith("__verif"):
+            continue
+        for fn in files:
+            if fn.endswith(".rs"):
+                fp = os.path.join(root, fn)
+                txt = open(fp).read()
+                new = add_repr_u8(txt)
+                new = re.sub(r"\blog::", "crate::__verif_common::", new)
+                # every format! in the crate builds an error message (checked: the only others are in tests)
+                new = re.sub(r"(?<![\w:])format!\(", "crate::__verif_common::nofmt!(", new)
+                if new != txt:
+                    open(fp, "w").write(new)
     return vdir
+
+
+ENUM_RE = re.compile(r"^(\s*)(pub(\([a-z ]+\))?\s+)?enum\s+\w+")
+
+
+def add_repr_u8(txt):
+    """Layout-only transformation: give every enum without an explicit repr an explicit u8 tag.
+    Kani/CBMC does not constant-fold discriminants that rustc niche-encodes in a `bool` field
+    (measured on SubpacketData: every match explored all 30 arms with garbage payloads); an explicit tag
+    is read as an integer and folds.  The crate is #![deny(unsafe_code)], so behaviour does not depend on layout."""
+    lines = txt.split("\n")
+    out = []
+    for i, ln in enumerate(lines):
+        m = ENUM_RE.match(ln)
+        if m and not ln.strip().startswith("//"):
+            j = len(out) - 1
+            has_repr = False
+            while j >= 0 and (out[j].strip().startswith("#[") or out[j].strip().startswith("///") or out[j].strip().startswith("//")
+                              or out[j].strip().endswith(")]") or out[j].strip().endswith(",")):
+                if "repr(" in out[j]:
+                    has_repr = True
+                j -= 1
+            if not has_repr:
+                out.append(m.group(1) + "#[repr(u8)]")
+        out.append(ln)
+    return "\n".join(out)
+
+
+# applied to every scratch copy; each is an environment model and is listed in the evidence assumptions
+SUBSTITUTIONS = [
+    ("src/packet/signature/ser.rs", "(*inner_sig).to_writer(writer)?;",
+     "{ crate::__verif_common::emb_enter(); let r = (*inner_sig).to_writer(writer); crate::__verif_common::emb_leave(); r?; }"),
+    ("src/packet/signature/ser.rs", "SubpacketData::EmbeddedSignature(sig) => (*sig).write_len(),",
+     "SubpacketData::EmbeddedSignature(sig) => { crate::__verif_common::emb_enter(); let r = (*sig).write_len(); crate::__verif_common::emb_leave(); r }"),
+    ("src/packet/signature/de.rs", "let sig = Signature::try_from_reader(header, signature_bytes.reader())?;",
+     "crate::__verif_common::emb_enter(); let sig = Signature::try_from_reader(header, signature_bytes.reader()); crate::__verif_common::emb_leave(); let sig = sig?;"),
+    ("src/normalize_lines.rs", "memchr::memchr_iter(", "crate::__verif_common::memchr_iter_model("),
+]
+SUBST_NOTE = ("scratch-copy substitutions: memchr::memchr_iter (x86_64 CPUID/SSE2 dispatch, not encodable) replaced at its "
+              "single call site by a naive in-order search model; log::{debug,info,warn}! and the format! inside the crate's "
+              "error macros (bail!/ensure!/format_err!/...) replaced by no-ops / empty strings: log output and error "
+              "*messages* are outside every claim, error *occurrence* is inside; the three places where a signature "
+              "subpacket recurses into an embedded Signature (serialise, write_len, parse) are wrapped in a depth "
+              "guard: embedded-signature nesting deeper than the harness' EMB_LIMIT (default 0) is assumed away; "
+              "every enum of the crate without an explicit repr gets #[repr(u8)] (layout only: CBMC cannot fold "
+              "discriminants that rustc niche-encodes in bool fields)")
 
 
 class BuildProblem(Exception):
     pass
+
+
+def host_mod(prop, module):
+    """rust module path of the file a harness module is injected into"""
+    for host, m in prop["inject"]:
+        if m == module:
+            p = host[len("src/"):-len(".rs")]
+            if p == "lib":
+                return ""
+            if p.endswith("/mod"):
+                p = p[:-4]
+            return p.replace("/", "::") + "::"
+    raise KeyError(module)
+
+
+def hid_of(prop, h):
+    return "%s__verif_%s::%s" % (host_mod(prop, h["module"]), h["module"], h["name"])
 
 
 # ------------------------------------------------------------------------------------------------
@@ -137,6 +221,8 @@ def run_kani(slot, prop, harnesses, jobs, logdir, extra=(), timeout_pad=120):
     if os.path.exists(jpath):
         os.remove(jpath)
     tmax = max(h["timeout"] for h in harnesses)
+    if os.environ.get("VERIF_TIMEOUT"):
+        tmax = int(os.environ["VERIF_TIMEOUT"])
     cmd = ["cargo", "kani"] + KANI_FLAGS + list(prop.get("kani_flags", []))
     feats = prop.get("features")
     if feats:
@@ -146,7 +232,7 @@ def run_kani(slot, prop, harnesses, jobs, logdir, extra=(), timeout_pad=120):
     if jobs > 1:
         cmd += ["-j", str(jobs), "--output-format", "terse"]
     for h in harnesses:
-        cmd += ["--harness", "__verif_%s::%s" % (h["module"], h["name"])]
+        cmd += ["--harness", hid_of(prop, h)]
     mem_kb = int(prop.get("mem_gb", 12) * 1024 * 1024)
     sh = "ulimit -v %d; exec %s" % (mem_kb, " ".join("'%s'" % c for c in cmd))
     rounds = (len(harnesses) + jobs - 1) // jobs
@@ -169,7 +255,7 @@ def run_kani(slot, prop, harnesses, jobs, logdir, extra=(), timeout_pad=120):
     return data, lpath, rc, dt
 
 
-def classify(data, harnesses):
+def classify(data, harnesses, prop):
     """per-harness verdicts from Kani's JSON export"""
     res = {}
     by = {}
@@ -179,7 +265,7 @@ def classify(data, harnesses):
         errs = {e["harness_id"]: e for e in data.get("error_details", [])}
         stats = {c["harness_id"]: c.get("cbmc_stats") for c in data.get("cbmc", [])}
     for h in harnesses:
-        hid = "__verif_%s::%s" % (h["module"], h["name"])
+        hid = hid_of(prop, h)
         r = by.get(hid)
         out = {"harness": h["name"], "verdict": "INCONCLUSIVE", "reason": "no result (build failure or crash)",
                "checks": 0, "failed_checks": [], "covers": {}, "stats": None, "duration_s": None}
@@ -352,7 +438,7 @@ def write_evidence(pid, tier, seed, prop, results, wall, violations, notes):
             "known_findings_hit": [n for n, r in results.items() if r["verdict"] == "KNOWN-FINDING"],
             "notes": notes,
         },
-        "assumptions": prop.get("assumptions", []),
+        "assumptions": list(prop.get("assumptions", [])) + [SUBST_NOTE],
         "wall_s": round(wall, 2),
         "violations": violations,
     }
@@ -383,11 +469,11 @@ def run_property(pid, tier, only, jobs, keep, seed):
             log("INCONCLUSIVE property=%s build: %s" % (pid, e))
             write_evidence(pid, tier, seed, prop, {}, time.time() - t0, 0, [str(e)])
             return 2
-        logdir = os.path.join(OUT, "logs", pid)
+        logdir = os.path.join(OUT, "logs", "%s-slot%d" % (pid, slot.k) if os.environ.get("VERIF_LOGDIR_PER_SLOT") else pid)
         shutil.rmtree(logdir, ignore_errors=True)
-        j = min(jobs, len(hs))
+        j = max(1, min(jobs, len(hs), int(56 // prop.get("mem_gb", 12))))
         data, lpath, rc, dt = run_kani(slot, prop, hs, j, logdir)
-        results = classify(data, hs)
+        results = classify(data, hs, prop)
         if data is None:
             txt = open(lpath, errors="replace").read()
             errs = re.findall(r"^error.*$", txt, re.M)[:5]
